@@ -14,18 +14,37 @@ def capLoop {α : Type} (max : Nat) : List (List α) → List α → List α × 
   | g :: rest, acc =>
     if max > 0 ∧ (acc ++ g).length ≥ max then (acc ++ g, true) else capLoop max rest (acc ++ g)
 
+/-- the list a capped loop returns once the combined list is cut to the maximum (K05l repair) -/
+def trimCap {α : Type} (max : Nat) (r : List α × Bool) : List α := if r.2 then r.1.take max else r.1
+
 theorem partialLoop_eq_capLoop (mk : Opts → Path → Viol → FieldErr) (own : Path → List Viol) (o : Opts)
     (leaves : List Path) (acc : List FieldErr) :
     partialLoop mk own o leaves acc =
-      { fields := (capLoop o.maxErrors (leaves.map fun p => (own p).map (mk o p)) acc).1,
+      { fields := trimCap o.maxErrors (capLoop o.maxErrors (leaves.map fun p => (own p).map (mk o p)) acc),
         truncated := (capLoop o.maxErrors (leaves.map fun p => (own p).map (mk o p)) acc).2 } := by
   induction leaves generalizing acc with
-  | nil => simp [partialLoop, capLoop]
+  | nil => simp [partialLoop, capLoop, trimCap]
   | cons p rest ih =>
     simp only [partialLoop, capLoop, List.map_cons]
     by_cases h : o.maxErrors > 0 ∧ (acc ++ (own p).map (mk o p)).length ≥ o.maxErrors
-    · rw [if_pos h, if_pos h]
+    · rw [if_pos h, if_pos h]; simp [trimCap]
     · rw [if_neg h, if_neg h]; exact ih _
+
+/-- a loop that was not truncated stayed below a positive maximum -/
+theorem capLoop_false_lt {α : Type} (max : Nat) (hm : max > 0) (groups : List (List α)) (acc : List α)
+    (hacc : acc.length < max) (hf : (capLoop max groups acc).2 = false) : (capLoop max groups acc).1.length < max := by
+  induction groups generalizing acc with
+  | nil => simpa [capLoop] using hacc
+  | cons g rest ih =>
+    simp only [capLoop] at hf ⊢
+    by_cases h : max > 0 ∧ (acc ++ g).length ≥ max
+    · rw [if_pos h] at hf; simp at hf
+    · rw [if_neg h] at hf ⊢
+      have : (acc ++ g).length < max := by
+        rcases Nat.lt_or_ge (acc ++ g).length max with h1 | h1
+        · exact h1
+        · exact absurd ⟨hm, h1⟩ h
+      exact ih (acc ++ g) this hf
 
 theorem fullLoop_eq_capLoop (mk : Opts → Path → Viol → FieldErr) (o : Opts)
     (errs : List (Path × Viol)) (acc : List FieldErr) :
@@ -91,6 +110,25 @@ theorem capLoop_unlimited {α : Type} (groups : List (List α)) (acc : List α) 
   induction groups generalizing acc with
   | nil => simp [capLoop]
   | cons g rest ih => simp [capLoop, ih, List.append_assoc]
+
+/-- the trimmed list never exceeds a positive maximum, is exactly full when truncated and below it otherwise —
+    whatever the groups hold -/
+theorem trimCap_capped {α : Type} (max : Nat) (hm : max > 0) (groups : List (List α)) :
+    (trimCap max (capLoop max groups [])).length ≤ max ∧
+    ((capLoop max groups []).2 = true → (trimCap max (capLoop max groups [])).length = max) ∧
+    ((capLoop max groups []).2 = false → (trimCap max (capLoop max groups [])).length < max) := by
+  obtain ⟨_, _, _, _, h3⟩ := capLoop_spec max groups []
+  by_cases hf : (capLoop max groups []).2 = true
+  · have := (h3 hf).2
+    have hl : (trimCap max (capLoop max groups [])).length = max := by
+      simp only [trimCap, hf, if_true, List.length_take]; omega
+    exact ⟨by omega, fun _ => hl, fun h => by rw [hf] at h; cases h⟩
+  · have hf' : (capLoop max groups []).2 = false := by simpa using hf
+    have := capLoop_false_lt max hm groups [] (by simpa using hm) hf'
+    have hl : (trimCap max (capLoop max groups [])).length = (capLoop max groups []).1.length := by
+      simp [trimCap, hf']
+    exact ⟨by omega, fun h => absurd h hf, fun _ => by omega⟩
+
 
 /-! ### `Error.Sort` -/
 
@@ -209,7 +247,7 @@ theorem wrap_some_nonempty (fs : List FieldErr) (t : Bool) (r : Result) (h : wra
 theorem partialFrom_eq_wrap (mk : Opts → Path → Viol → FieldErr) (leaves : List Path)
     (own : Path → List Viol) (o : Opts) :
     partialFrom mk leaves own o =
-      wrap (capLoop o.maxErrors (partialGroups mk leaves own o) []).1
+      wrap (trimCap o.maxErrors (capLoop o.maxErrors (partialGroups mk leaves own o) []))
            (capLoop o.maxErrors (partialGroups mk leaves own o) []).2 := by
   unfold partialFrom wrap partialGroups
   rw [partialLoop_eq_capLoop]
@@ -217,13 +255,22 @@ theorem partialFrom_eq_wrap (mk : Opts → Path → Viol → FieldErr) (leaves :
 theorem partialFrom_fields (mk : Opts → Path → Viol → FieldErr) (leaves : List Path)
     (own : Path → List Viol) (o : Opts) :
     (fieldsOf (partialFrom mk leaves own o)).Perm
-      (capLoop o.maxErrors (partialGroups mk leaves own o) []).1 := by
+      (trimCap o.maxErrors (capLoop o.maxErrors (partialGroups mk leaves own o) [])) := by
   rw [partialFrom_eq_wrap]; exact wrap_fields _ _
+
+theorem trimCap_trunc_nonempty {α : Type} (max : Nat) (groups : List (List α))
+    (h : (capLoop max groups []).2 = true) : trimCap max (capLoop max groups []) ≠ [] := by
+  obtain ⟨_, _, _, _, h3⟩ := capLoop_spec max groups []
+  have := h3 h
+  intro he
+  have hl := congrArg List.length he
+  simp only [trimCap, h, if_true, List.length_take, List.length_nil] at hl
+  omega
 
 theorem partialFrom_trunc (mk : Opts → Path → Viol → FieldErr) (leaves : List Path)
     (own : Path → List Viol) (o : Opts) :
     truncOf (partialFrom mk leaves own o) = (capLoop o.maxErrors (partialGroups mk leaves own o) []).2 := by
-  rw [partialFrom_eq_wrap]; exact wrap_trunc _ _ (capLoop_trunc_nonempty _ _ _)
+  rw [partialFrom_eq_wrap]; exact wrap_trunc _ _ (trimCap_trunc_nonempty _ _)
 
 theorem partialFrom_sorted (mk : Opts → Path → Viol → FieldErr) (leaves : List Path)
     (own : Path → List Viol) (o : Opts) :
